@@ -413,3 +413,51 @@ PROPS["C09"] = dict(
     assumptions=["parallelism is fixed to 1 lane by the API (as in libsodium)"],
     trusted_base=TB_COMMON + ["libsodium's internal argon2i_hash_raw / argon2id_hash_raw symbols linked from the static archive"],
 )
+
+# ---------------------------------------------------------------------------------------------- C10
+
+
+def _c10_floors(m, tier):
+    out = need(m, "string_origin", ["crypto_pwhash_str", "PwHash::to_string", "libsodium_argon2id_str", "libsodium_argon2i_str", "built_argon2id", "built_argon2i"], "string origins")
+    out += need(m, "alg", ["argon2i", "argon2id"], "algorithms")
+    out += need(m, "opslimit", range(1, 5), "opslimit values")
+    if len(m.cov.get("salt_len", {})) < 20 or len(m.cov.get("hash_len", {})) < 20:
+        out.append("fewer than 20 distinct salt / hash lengths seen")
+    return out
+
+
+PROPS["C10"] = dict(
+    level="exploration",
+    technique="runtime differential monitoring: strings produced by dryoc are decoded by an independent strict PHC decoder, re-hashed with libsodium's Argon2 core and handed to libsodium's verifier; strings produced by libsodium (argon2i and argon2id) and harness-built strings are verified, re-encoded and queried for needs-rehash under dryoc",
+    level_text="For seeded passwords (0..=128 bytes, incl. NUL and non-UTF-8) and small costs (opslimit 1..4, 8..256 KiB) the check crosses both libraries in both directions: dryoc string -> libsodium verifier "
+               "(right and wrong password) and decode-and-recompute; libsodium / harness-built string (both algorithms, salt 8..64 bytes, hash 16..128 bytes) -> dryoc verify, parse, re-encode (must be identical) "
+               "and needs_rehash (false exactly when both costs match, for five cost variations per string). Sampled inputs, hence exploration.",
+    level_note="libsodium's decoder sizes its buffers from strlen, so its verdict is available for non-default salt/hash lengths too; the needs-rehash rule is cross-checked against libsodium on standard strings.",
+    runs=lambda tier: [dict(build="st", monitor="c10")],
+    floors=_c10_floors,
+    rule="a case is one password-hash string with its password and origin; distinct by generated index; every case performs hashing",
+    assumptions=["costs are kept small (the property quantifies over the accepted range at small cost)"],
+    trusted_base=TB_COMMON,
+)
+
+# ---------------------------------------------------------------------------------------------- C11
+
+
+def _c11_floors(m, tier):
+    n = len(m.cov.get("entry_point", {}))
+    return [] if n >= 47 else ["only %d of 47 randomised entry points (37 stable + 10 heap/locked) exercised" % n]
+
+
+PROPS["C11"] = dict(
+    level="exploration",
+    technique="runtime history monitoring: N consecutive calls of every randomised entry point, statistical oracle with explicit false-alarm bound (distinctness, non-zero, per-byte variability)",
+    level_text="47 entry points (byte-array gen() on every container, all keygen/keypair functions, object-API generators, sealed-box ephemeral key, stream header, password-hash salts from the object and the string API; "
+               "heap / locked / read-only-locked variants on nightly) are each called 256 (quick) / 1024 (thorough) times in a row; no value may repeat, be all-zero, or have a byte position that never changes. "
+               "A finite number of calls cannot prove independence; the test detects constant, partially constant, zero and repeating outputs.",
+    level_note="False-alarm probability per run < 2^-100 (distinctness and non-zero tests only on values of >= 16 bytes; a byte position constant over 256 uniform draws has probability 256^-255).",
+    runs=lambda tier: [dict(build="st", monitor="c11"), dict(build="ni", monitor="c11", opts=NI_ONLY)],
+    floors=_c11_floors,
+    rule="a case is one (entry point, output component) observed over N calls; distinct by entry point/component; evaluations = oracle applications + calls",
+    assumptions=["OS randomness is assumed sound; the property is about the crate actually drawing from it on every call"],
+    trusted_base=TB_COMMON,
+)
